@@ -1,0 +1,26 @@
+//go:build verif
+
+package transforms32
+
+import "image"
+
+// Verification hooks (build tag "verif" only): direct access to the portable
+// kernels and to the kernel selection, so that the portable and the vectorised
+// implementations can be compared on the same input.
+
+// VerifForwardDCT64Go runs the portable 64-point kernel in place.
+func VerifForwardDCT64Go(x []float32) { forwardDCT64(x) }
+
+// VerifForwardDCT256Go runs the portable 256-point kernel in place.
+func VerifForwardDCT256Go(x []float32) { forwardDCT256(x) }
+
+// VerifYCbCrToGrayGo runs the portable YCbCr-to-gray conversion.
+func VerifYCbCrToGrayGo(img *image.YCbCr, pixels []float32) { yCbCrToGrayAlt(img, pixels) }
+
+// VerifUseGo selects the portable kernels everywhere (as on a CPU without AVX2).
+func VerifUseGo() {
+	FlagUseASM = false
+	ForwardDCT64 = forwardDCT64
+	ForwardDCT256 = forwardDCT256
+	YCbCrToGray = yCbCrToGrayAlt
+}
